@@ -327,6 +327,37 @@ def rule_r7(chk):
         args = [unparse(x) for x in r.args]
         ok = dotted(r.func) == convf and args == [ife[0].targets[0].id, params(g)[0], params(g)[1]]
         chk.ob("C12-R7", f"series.arip.{cls}.{meth}[frequency conversion]", ok, f"returns {unparse(r)[:70]} (low -> high frequency)", m.loc(g))
+    # the conversions themselves: a rate of change over one low-frequency period is the high-frequency rate compounded from/to times
+    # (exponent from_freq / to_freq, a fraction for low -> high), a difference is spread proportionally (factor from_freq / to_freq)
+    from .. import fin
+    cm = chk.repo.mod("irispie.series._conversions")
+
+    class _Base(fin.FinObj):
+        def __pow__(self, e):
+            return ("pow", e)
+        def __mul__(self, e):
+            return ("mul", e)
+        __rmul__ = __mul__
+    for fn, opname, label in (("convert_roc", "pow", "exponent"), ("convert_diff", "mul", "factor")):
+        g = cm.func(fn)
+        chk.saw(cm, fn)
+        bad = None
+        n_pairs = 0
+        try:
+            for a in (1, 2, 4, 12, 52, 365):
+                for b in (1, 2, 4, 12, 52, 365):
+                    got = fin.run_function(g, dict(zip(params(g), (_Base(), a, b))), funcs={"float": lambda x: x, "int": lambda x: x})
+                    n_pairs += 1
+                    if got != (opname, Fraction(a, b)) and got != (opname, a / b if a % b else a // b):
+                        bad = f"{fn}(x, from_freq={a}, to_freq={b}) applies the {label} {got[1] if isinstance(got, tuple) else got} instead of {a}/{b}" \
+                              + (" - every low-to-high conversion degenerates" if a < b and isinstance(got, tuple) and got[1] in (0, 1) else "")
+                        break
+                if bad:
+                    break
+        except (fin.NotFinite, fin.Raised, TypeError) as ex:
+            chk.undecided("C12-R7", f"series._conversions.{fn}", f"not finitely evaluable: {ex}", cm.loc(g))
+        else:
+            chk.ob("C12-R7", f"series._conversions.{fn}", bad is None, bad or f"{label} is from_freq/to_freq exactly for all {n_pairs} ordered pairs of frequencies", cm.loc(g), sure=True)
     # aggregation vectors, evaluated on n = 1..6
     want = {"sum": lambda n: [1] * n, "mean": lambda n: [Fraction(1, n)] * n, "avg": lambda n: [Fraction(1, n)] * n,
             "first": lambda n: [1] + [0] * (n - 1), "last": lambda n: [0] * (n - 1) + [1]}
